@@ -31,6 +31,8 @@ class CondGen(object):
         self.features = set()
         self.maxdepth = maxdepth
         self.helpers = set()
+        self.regs = {}               # \newcount registers: name -> current value (assignments happen between the top-level items)
+        self.reginit = {}
         self.nmac = 0
         self.forms = set()
 
@@ -58,6 +60,11 @@ class CondGen(object):
             name = r.choice(sorted(self.counters))
             self.features.add('counter-operand')
             return '\\value{%s}' % name, self.counters[name]
+        if self.regs and r.random() < 0.5:
+            # a \newcount register (assigned at the outer level of the program, read anywhere)
+            name = r.choice(sorted(self.regs))
+            self.features.add('register-operand')
+            return '\\%s' % name, self.regs[name]
         if not self.nums or r.random() < 0.3:
             name = 'zqn' + alpha(len(self.nums))
             self.nums[name] = r.choice([0, 1, 2, 4, 7, 12, 13, 100, -3])
@@ -244,10 +251,21 @@ class CondGen(object):
     def program(self):
         r = self.r
         body = ''
+        if r.random() < 0.35:
+            for k in range(r.randint(1, 2)):
+                nm = 'zqr' + alpha(k)
+                self.regs[nm] = self.reginit[nm] = r.choice([0, 1, 2, 5, 7, 12, -3])
         for _ in range(r.randint(1, 4)):
             body += self.placed()
             if r.random() < 0.3:
                 body += 'M' + alpha(r.randint(0, 500)) + ' '
+            if self.regs and r.random() < 0.5:
+                # a TeX-style assignment between two conditionals (whatever the conditionals before it did, it must take effect)
+                nm = r.choice(sorted(self.regs))
+                v = r.choice([0, 1, 3, 4, 7, 9, 100, -2])
+                self.regs[nm] = v
+                body += '\\%s%s%d%s' % (nm, r.choice(['=', '=', ' = ', ' ']), v, r.choice(['\\relax ', ' ']))
+                self.features.add('register-assignment')
         pre = ''
         for name in self.branches:
             pre += '\\newcounter{%s}' % name
@@ -259,6 +277,8 @@ class CondGen(object):
             pre += '\\def\\%s{%s}' % (name, b)
         for sw in self.switches:
             pre += '\\newif\\%s ' % sw
+        for nm, v in sorted(self.reginit.items()):
+            pre += '\\newcount\\%s \\%s=%d ' % (nm, nm, v)
         if 'ifzqmac' in self.helpers:
             pre += '\\def\\ifzqmac{Qi}'
         if 'zqrlx' in self.helpers:
